@@ -71,6 +71,9 @@ def run_batch(ctx, n, with_model=True):
     for k in (list(range(1, 97)) if ctx.tier == "thorough" else [1, 2, 12, 13, 30, 31, 32, 33, 47, 48, 61, 62, 63, 64, 65, 66, 79, 95, 96]):
         p = nest(k)
         cases.append((p, gen.render(p), [{"u": "u1", "x": v} for v in (0, k // 2, k, k + 1)]))
+    # dimension sweeps (gen.sweep_cases): a seeded sample of every size along every dimension, through both layouts
+    for c in gen.sweep_cases(rng, 0.5 if ctx.tier == "thorough" else 0.12):
+        cases.append((c["prog"], c["text"], c["envs"][:4]))
     # corpus: literals that spell a piece of the generated text (banner, import line, signature, call)
     for frag in gen.generated_fragments():
         lit = gen.lit_str(frag, rng)
